@@ -111,6 +111,11 @@ func cmdCheck(args []string) int {
 	s := newSched(P, time.Now().Add(budget))
 	for _, j := range jobs {
 		j.Frame = spec.Frame
+		j.Params["__props"] = strings.Join(j.Props, ",")
+		j.Params["__frame"] = "0"
+		if j.Frame {
+			j.Params["__frame"] = "1"
+		}
 		s.add(j)
 	}
 	s.run(*workers)
